@@ -133,7 +133,7 @@ package main
 //@   trace[C09,listens-on-configured-address] loop 4 each main.(*listenerSet).ListenStream satisfies $arg1 == lnConfig.Address
 //@   trace[C09,listens-on-configured-address-udp] loop 4 each main.(*listenerSet).ListenPacket satisfies $arg1 == lnConfig.Address
 //@   trace[C09,one-listener-per-entry] loop 4 atmost 1 main.(*listenerSet).Listen*
-//@   trace[C10,C11,every-listener-of-a-generation-belongs-to-its-set] never service.ListenerManager.Listen*
+//@   trace[C10,C11,every-listener-of-a-generation-belongs-to-its-set] never service.*istenerManager*.Listen*
 //@   trace[C11,legacy-keys-installed-before-serving] loop 2 before service.(*cipherList).Update go:*
 //@   trace[C09,C11,legacy-keys-installed-once-per-port] loop 2 exactly 1 service.(*cipherList).Update
 //@   trace[C15,C16,C17,every-legacy-service-reports-to-the-server-metrics] loop 2 exactly 1 service.WithMetrics
